@@ -529,3 +529,103 @@ func queuePrograms(c *RunCtx) {
 		})
 	}
 }
+
+// epPurgeBurst: a paused worker holds more pending jobs than one FIFO segment; Purge must cancel
+// every one of them (handles Closed, waiters released, nothing runs after Resume).
+func epPurgeBurst(c *RunCtx, wk WK, qk QK, n, batch int) *Result {
+	e := NewEnv(c.Prop)
+	e.Quiet = true
+	desc := fmt.Sprintf("purge-burst wk=%v qk=%v n=%d batch=%d", wk, qk, n, batch)
+	var ran atomic.Int64
+	out := RunBubble(c.T, func(bid string) {
+		s := NewSubject(wk, func(j varmq.Job[int]) Outcome { ran.Add(1); return Outcome{} }, 2)
+		q := s.Bind(qk, nil)
+		s.W.Pause()
+		var hs []varmq.EnqueuedJob
+		for i := 0; i < n; i++ {
+			h, ok := q.Add(i, i%3, "")
+			if !ok {
+				e.Fail("C01", "rejected-on-open-queue", "", desc)
+				return
+			}
+			hs = append(hs, h)
+		}
+		var b *Batch
+		if batch > 0 {
+			items := make([]varmq.Item[int], batch)
+			for i := range items {
+				items[i] = varmq.Item[int]{ID: fmt.Sprint(i), Data: n + i}
+			}
+			b = q.AddAll(items)
+			if b.Drain != nil {
+				b.Drain()
+			}
+		}
+		q.Base.Purge()
+		notClosed := 0
+		first := -1
+		for i, h := range hs {
+			if h.Status() != "Closed" {
+				notClosed++
+				if first < 0 {
+					first = i
+				}
+			}
+		}
+		e.Quiet = false
+		if notClosed > 0 {
+			det := fmt.Sprintf("%s: %d of %d purged jobs are not Closed after Purge returned (first: job %d, status %s); NumPending=%d", desc, notClosed, n, first, hs[first].Status(), q.Base.NumPending())
+			e.Fail("C10", "purge-drop", "burst", det)
+			e.Fail("C05", "purged-waiters-not-released", "burst", det)
+			e.Fail("C01", "lost", "purge-burst", det)
+		}
+		k := NewKit(e, 0)
+		if !e.Failed() {
+			if !k.Await(func() {
+				for _, h := range hs {
+					h.Wait()
+				}
+				if b != nil {
+					b.Wait()
+				}
+			}) {
+				hangFail(e, "C05", "Wait-after-purge", bid)
+				e.Fail("C10", "purged-waiters-blocked", "burst", desc)
+				return
+			}
+			if b != nil && b.NumPending() != 0 {
+				e.Fail("C08", "pending-after-wait", "purge-burst", fmt.Sprintf("%s: batch NumPending=%d after purge and Wait", desc, b.NumPending()))
+			}
+		}
+		if p := q.Base.NumPending(); p != 0 {
+			e.Fail("C17", "pending-at-rest", "purge-burst", fmt.Sprintf("%s: NumPending=%d after Purge", desc, p))
+		}
+		s.W.Resume()
+		synctest.Wait()
+		if r := ran.Load(); r != 0 {
+			e.Fail("C10", "cancelled-ran", "burst", fmt.Sprintf("%s: %d purged jobs ran after Resume", desc, r))
+			e.Fail("C01", "cancelled-ran", "purge-burst", fmt.Sprintf("%s: %d purged jobs ran after Resume", desc, r))
+		}
+		s.W.Stop()
+		synctest.Wait()
+	})
+	e.Quiet = false
+	if out.Kind == "hang" || out.Kind == "panic" {
+		e.Fail("C05", out.Kind, "purge-burst/"+blockedLibFrames(out.Stacks), desc+": "+out.Msg)
+	}
+	e.Nontrivial()
+	rr := e.Result(map[string]any{"program": desc})
+	rr.Sig = desc
+	return rr
+}
+
+func purgeBurstPrograms(c *RunCtx, nq, nt int) {
+	sizes := []int{1023, 1024, 1025, 1500, 2560, 2561, 3000, 5000}
+	for v := 0; v < c.Q(nq, nt); v++ {
+		c.Program(fmt.Sprintf("purge-burst/%d", v), func(p *Prog) {
+			r := p.Rng
+			wk, qk, n, batch := Pick(r, WPlain, WErr, WResult), Pick(r, QFifo, QFifo, QPrio), sizes[v%len(sizes)], Pick(r, 0, 0, 7, 1100)
+			p.Explore(func(pl Plan) *Result { return epPurgeBurst(c, wk, qk, n, batch) }, ExploreOpts{Base: 1})
+		})
+	}
+}
